@@ -312,7 +312,8 @@ def rule_lookup(ctx, F, rule2="R2", rule3="R3", ST=ST, SK=SK, floors=True):
             i_gt0 = [v for (t, v, s) in p.conds if t[0] == "bin" and t[1] == "Lt" and t[2] == ("const", "usize", 0) and t[3] == I]
             miss = [v for (t, v, s) in p.conds if t[0] == "discr" and t[1][0] == "call" and t[1][1].endswith("::get") and v == 0]
             empty = [v for (t, v, s) in p.conds if t[0] == "bin" and t[1] == "Eq" and t[2][0] == "len" and v == 1]
-            ok = (lt == 1 and i_gt0 == [0]) or bool(miss) or bool(empty) or \
+            i_lt1 = [v for (t, v, s) in p.conds if t[0] == "bin" and t[1] == "Lt" and t[2] == I and t[3] == ("const", "usize", 1)]
+            ok = (lt == 1 and (i_gt0 == [0] or i_lt1 == [1])) or bool(miss) or bool(empty) or \
                 any(t[0] == "discr" and v == 0 for (t, v, s) in p.conds)
             ctx.ob(rule2, lab + "/none-row", ok, "None is returned only when there is no bracketing frame", body["span"],
                    trace_of(p), what="spurious-none")
@@ -380,10 +381,12 @@ def rule_lookup(ctx, F, rule2="R2", rule3="R3", ST=ST, SK=SK, floors=True):
         # R2: the pair of frames
         last = [v for (t, v, s) in p.conds if t[0] == "bin" and t[1] == "Eq" and t[2] == I and t[3][0] == "bin"
                 and t[3][1] == "Sub" and t[3][2][0] == "len"]
+        # "idx is the last frame" may also be established by finding no frame at idx+1
+        no_next = [v for (t, v, s) in p.conds if t[0] == "discr" and t[1] == ("call", "core::slice::<impl [T]>::get", (("&", frames), Kp1))]
         if lt == 1:
             okp = matches(START, expected(Km1)) and matches(END, expected(I))
             want = "(frame idx-1, frame idx)"
-        elif last == [1]:
+        elif last == [1] or (not last and no_next == [0]):
             okp = matches(START, expected(I)) and matches(END, expected(I))
             want = "(frame idx, frame idx)"
         else:
